@@ -93,7 +93,7 @@ def St.endEmitted (s : St) : List Arm :=
   match s.kind with
   | .fail => []
   | .cond => s.arms
-  | .normal => match s.endArm with | some a => [a] | none => []
+  | .normal => match s.endArm with | some a => (if s.accepting && a.err then [] else [a]) | none => []
 
 def Machine.feedGotos (M : Machine) (o : SemOpts) : List String :=
   M.states.toList.flatMap fun s => s.feedEmitted.flatMap fun a => M.armGotos o a false
